@@ -77,7 +77,7 @@ def run(ctx):
             else:
                 bad.append(("return not determined", p))
             for e in recs:
-                if not any(a == ("param", 2) for a in e.args):
+                if not any(mentions(a, lambda s_: s_ == ("param", 2)) for a in e.args):      # the key itself, or its hash
                     badk.append(str([fmt(a) for a in e.args]))
         ctx.check(not bad and paths, "R15.1", "%s|one-record-iff-hit" % f.name,
                   "a read returning a value records exactly one access; a read returning None records none (%d symbolic paths)" % len(paths),
@@ -298,7 +298,7 @@ def run(ctx):
                 if not whole and len(pieces) != len(incs):
                     bad.append(("the applied hashes are not the received buffer", p))
                 for b, t in incs:
-                    if "AF" not in c.held_before_term(b):
+                    if "AF" not in c.held_before_term(b) and "AF" not in site_effects(F, c, b)["acquire"]:
                         bad.append(("buffer applied without the sketch lock", p))
             elif incs:
                 bad.append(("sketch touched without a Full event", p))
